@@ -161,7 +161,7 @@ int Kernel::tick(int seam, const Fault **fo)
 		probe(seam == S_POLL ? "sigwinch_in_poll" : seam == S_WAIT ? "sigwinch_in_waitpid" : "sigwinch_between_calls");
 		ev("SIGWINCH", any->arg * 1000 + any->arg2);
 		deliver(SIGWINCH);
-		if (any->err) eintr = 1;
+		eintr = any->err ? 1 : 2;	// 2: delivered just before the call, which then proceeds
 	}
 	const Fault *f = seam != S_ANY ? fault_for(seam) : nullptr;
 	if (seam != S_ANY) seam_cnt[seam]++;
@@ -1014,6 +1014,12 @@ int sim_poll(struct pollfd *pf, unsigned long n, int timeout)
 {
 	const Fault *f;
 	int eintr = K.tick(S_POLL, &f);
+	if (eintr == 2) {
+		// a signal that arrives as the editor is about to block for terminal input lands inside the
+		// blocking poll for all practical purposes (the race window before it is a few instructions)
+		bool blocks = timeout < 0 && K.tty_in.empty();
+		eintr = blocks ? 1 : 0;
+	}
 	if (f && f->effect == "eintr") { K.fired["poll:eintr"]++; eintr = 1; }
 	if (n > 1) {	// the child-process loop's poll (the terminal prompt polls one fd)
 		const Fault *g = K.fault_for(S_CPOLL);
